@@ -111,7 +111,7 @@ class Enc:
                 subs.append(self.octets(a, cls=CTX, num=1))
             if fin is not None:
                 subs.append(self.octets(fin, cls=CTX, num=2))
-            return self.seq([self.string(attr), self.seq(subs, kind="SEQOF")], cls=CTX, num=tag, kind="SEQ")
+            return self.seq([self.string(attr), self.seq(subs, kind="SEQOF-SUBSTRINGS")], cls=CTX, num=tag, kind="SEQ")
         if k == "ext":
             _, rule, attr, val, dn = f
             kids = []
